@@ -835,8 +835,14 @@ fn check_inner(line: &str, res: &str, t: &[&str], mut m: Vec<String>) -> Vec<Str
                     }
                 }
             }
-            if api == "v1" && src == "b" && ro == R_DEFAULT {
-                if let Some(msg) = numeric_oracle(&data, res, t[1] == "1") { m.push(msg); }
+            // a numeric literal denotes its value under EVERY option set (no option names numeric literals)
+            if api == "v1" && src == "b" {
+                if let Some(msg) = numeric_oracle(&data, res, t[1] == "1") {
+                    // with leading-digit symbols a digit-initial literal too large for a double is read as a symbol
+                    // rather than rejected (the option says digit-initial tokens may be symbols): not C05's business
+                    let symbol_instead_of_range_error = d(ro, 9) == 1 && msg.contains("exceeds the range of a double") && res.starts_with("val Y");
+                    if !symbol_instead_of_range_error { m.push(if ro == R_DEFAULT { msg } else { format!("{} (options {})", msg, ro) }); }
+                }
             }
             if (api == "v1" || api == "d1") && src == "b" && (ro == R_DEFAULT || ro == R_ELISP) {
                 if let Some(d) = entry_points_disagree(&data, ro == R_ELISP) {
